@@ -3,28 +3,34 @@
 (* the step just taken and of what the contract routes every probe topic to afterwards.          *)
 (* Rejected SUBSCRIBE packets are generated with a single filter only (deterministic outcome);   *)
 (* rejected multi-filter packets are exercised by trace validation, where TLC resolves the        *)
-(* contract's freedom.                                                                            *)
+(* contract's freedom.  The clients of Persistent use cleanSession=false: their connection can drop  *)
+(* and come back with the session resumed (Resume), after which every probe is looked up again.      *)
 EXTENDS MqttTopics, Json, SequencesExt
 
 VARIABLES out,   \* JSON of the step just taken + predicted routing ("-" while the step is being chosen)
-          ph     \* "op": choose the next operation; "emit": describe it (two phases keep -simulate cheap:
+          ph,    \* "op": choose the next operation; "emit": describe it (two phases keep -simulate cheap:
                  \* the expensive ToJson is evaluated for the chosen successor only)
+          kind   \* the kind of the next operation, drawn in the emit phase: -simulate picks uniformly among the
+                 \* successor states, and there are ~50 SUBSCRIBE successors for one disconnect / takeover / resume
 
 RouteRec(t) == [t |-> t, r |-> SetToSeq({[c |-> c, qs |-> SetToSeq(Route(t)[c])] : c \in DOMAIN Route(t)})]
 RouteAll == SetToSeq({RouteRec(t) : t \in Topics})
 
-GInit == Init /\ out = ToJson([a |-> "init"]) /\ ph = "op"
-GOp   == /\ ph = "op" /\ ph' = "emit" /\ out' = "-"
+Kinds == 1..8       \* 1-4 subscribe, 5-6 unsubscribe, 7 end of a session (disconnect / clean takeover), 8 resume
+GInit == Init /\ out = ToJson([a |-> "init", pers |-> SetToSeq(Persistent)]) /\ ph = "op" /\ kind \in Kinds
+GOp   == /\ ph = "op" /\ ph' = "emit" /\ out' = "-" /\ UNCHANGED kind
          /\ n < MaxOps
          /\ \E c \in Clients :
-              \/ \E fs \in FilterSeqs : \E qs \in [1..Len(fs) -> QoS] :
+              \/ /\ kind \in 1..4 \/ (kind = 8 /\ Persistent = {})
+                 /\ \E fs \in FilterSeqs : \E qs \in [1..Len(fs) -> QoS] :
                      /\ (Len(fs) > 1 => ValidIdx(fs) = 1..Len(fs))
                      /\ Subscribe(c, fs, qs, IF ValidIdx(fs) = 1..Len(fs) THEN 1..Len(fs) ELSE {})
-              \/ \E fs \in FilterSeqs : Unsubscribe(c, fs)
-              \/ Disconnect(c)
-              \/ Takeover(c)
-GEmit == /\ ph = "emit" /\ ph' = "op" /\ UNCHANGED vars
+              \/ kind \in 5..6 /\ \E fs \in FilterSeqs : Unsubscribe(c, fs)
+              \/ kind = 7 /\ Disconnect(c)
+              \/ kind = 7 /\ Takeover(c)
+              \/ kind = 8 /\ Resume(c)
+GEmit == /\ ph = "emit" /\ ph' = "op" /\ UNCHANGED vars /\ kind' \in Kinds
          /\ out' = ToJson([op |-> last, route |-> RouteAll])
 GNext == GOp \/ GEmit
-GSpec == GInit /\ [][GNext]_<<vars, out, ph>>
+GSpec == GInit /\ [][GNext]_<<vars, out, ph, kind>>
 =============================================================================
